@@ -218,6 +218,21 @@ func c06CheckStream(w *mon.W, cases []pbCase, frames [][]byte, mode int, reuse b
 		}
 		if n, _ := w.State["c06len"].(int); true {
 			w.State["c06len"] = n + 1
+			if n%6 == 4 {
+				// a reader that hands over the last bytes of a frame's BODY together with a transient, non-EOF error
+				// (n > 0, err != nil in one Read: a quota or deadline reader) and carries on afterwards: the bytes come
+				// first, each frame was delivered completely
+				var ends []int
+				at := 0
+				for _, f := range frames {
+					at += len(f)
+					if len(f) > 32 {
+						ends = append(ends, at)
+					}
+				}
+				cr = &boundaryErrReader{r: cr, ends: ends}
+				w.Bucket("reader/error-with-the-last-bytes-of-a-body")
+			}
 		}
 	} else {
 		sr := stdReaders(stream)[(mode-chNModes)%c06NStd]
